@@ -263,6 +263,9 @@ PROPS["C12"] = {
         {"pkg": "sqlite", "dir": "sqlite", "entry": "VerifH_C12_to_current", "extra": [("s3db_export", ".")], "no_native": True, "reach": ["end", "queried"],
          "quick": {"params": "steps=3", "workers": 16, "timeout": 1800},
          "thorough": {"params": "steps=4", "workers": 16, "timeout": 7200}},
+        {"pkg": "sqlite", "dir": "sqlite", "entry": "VerifH_C12_to_current", "tag": "-faults", "extra": [("s3db_export", ".")], "no_native": True,
+         "quick": {"params": "steps=2,faults=1", "workers": 16, "timeout": 1800},
+         "thorough": {"params": "steps=3,faults=1", "workers": 16, "timeout": 7200}},
         {"pkg": "sqlite", "dir": "sqlite", "entry": "VerifH_C12_changes", "tag": "-faults", "extra": [("s3db_export", ".")], "no_native": True,
          "quick": {"params": "steps=2,faults=1,damage=0,refilter=0", "workers": 16, "timeout": 1800}, "quick_only": True},
         {"pkg": "sqlite", "dir": "sqlite", "entry": "VerifH_C12_changes", "tag": "-two-writers", "extra": [("s3db_export", ".")], "no_native": True,
